@@ -939,6 +939,7 @@ class ModuleInfo:
         except SyntaxError as e:
             raise AnalysisError("syntax error in %s: %s" % (path, e))
         self.memos = strip_unknown_memoisations(self.tree, set())     # the pinned tree has no whole-method memo
+        unwrap_memo_delegates(self.tree, name)
         assume_new_caches_miss(self.tree, name)
         unmove_static_aliases(self.tree)
         unroll_reflective_loops(self.tree)
@@ -1487,6 +1488,120 @@ def assume_new_caches_miss(tree, modname):
         if new_globals and _rewrite_cache_uses(fn, lambda e: ("glob." + e.id) if isinstance(e, ast.Name) and e.id in new_globals else None):
             done += 1
     return done
+
+
+def unwrap_memo_delegates(tree, modname):
+    """A recursion that was given a per-call memo:  F(a, b) became `return X._F_memo(a, b, {})` and the recursion moved into the new
+    helper `_F_memo(a, b, memo)`, which looks (a, b) up in `memo`, recurses with `memo` handed on, stores and returns.  The dict lives
+    for one top-level call and is keyed by the arguments, so for the analysis the helper IS the old recursion: its body (memo idioms
+    removed as in assume_new_caches_miss, recursive calls re-directed to F) replaces F's body and the helper disappears.  Only helpers
+    the pinned tree does not have are touched."""
+    known = _known_attrs()
+    pinned = set(known.get("functions", [])) if known else set()
+    if not pinned:
+        return 0
+    done = 0
+
+    def classes(node, prefix):
+        for st in node.body:
+            if isinstance(st, ast.ClassDef):
+                yield prefix + "." + st.name, st
+                yield from classes(st, prefix + "." + st.name)
+    for cq, cdef in list(classes(tree, modname)):
+        methods = {m.name: m for m in cdef.body if isinstance(m, ast.FunctionDef)}
+        for F in list(methods.values()):
+            body = [st for st in F.body if not (isinstance(st, ast.Expr) and isinstance(st.value, ast.Constant) and isinstance(st.value.value, str))]
+            fresh_name = None
+            if len(body) == 2 and isinstance(body[0], ast.Assign) and len(body[0].targets) == 1 and isinstance(body[0].targets[0], ast.Name) \
+                    and _is_empty_dict(body[0].value):
+                fresh_name = body[0].targets[0].id
+                body = body[1:]
+            if not (len(body) == 1 and isinstance(body[0], ast.Return) and isinstance(body[0].value, ast.Call)):
+                continue
+            call = body[0].value
+            f_ = call.func
+            if not (isinstance(f_, ast.Attribute) and isinstance(f_.value, ast.Name) and f_.attr in methods and f_.attr != F.name and not call.keywords):
+                continue
+            H = methods[f_.attr]
+            if "%s.%s" % (cq, H.name) in pinned or not H.name.startswith("_"):
+                continue
+            static_f = any(isinstance(d, ast.Name) and d.id == "staticmethod" for d in F.decorator_list)
+            static_h = any(isinstance(d, ast.Name) and d.id == "staticmethod" for d in H.decorator_list)
+            if static_f != static_h:
+                continue
+            fp = [a.arg for a in F.args.args][(0 if static_f else 1):]
+            hp = [a.arg for a in H.args.args][(0 if static_h else 1):]
+            if len(hp) != len(fp) + 1 or len(call.args) != len(hp):
+                continue
+            if not all(isinstance(a, ast.Name) and a.id == p_ for a, p_ in zip(call.args[:-1], fp)):
+                continue
+            last = call.args[-1]
+            if not (_is_empty_dict(last) or (isinstance(last, ast.Name) and last.id == fresh_name)):
+                continue
+            memo = hp[-1]
+            recv = f_.value.id
+            # recursive calls hand the memo on as last argument; re-direct them to F
+            ok = True
+            rec_calls = []
+            for n in ast.walk(H):
+                if isinstance(n, ast.Call) and isinstance(n.func, ast.Attribute) and n.func.attr == H.name and isinstance(n.func.value, ast.Name):
+                    if n.keywords or len(n.args) != len(hp) or not (isinstance(n.args[-1], ast.Name) and n.args[-1].id == memo):
+                        ok = False
+                    rec_calls.append(n)
+            if not ok:
+                continue
+            import copy as _copy
+            Hc = _copy.deepcopy(H)
+            for n in ast.walk(Hc):
+                if isinstance(n, ast.Call) and isinstance(n.func, ast.Attribute) and n.func.attr == H.name and isinstance(n.func.value, ast.Name):
+                    n.func.attr = F.name
+                    n.args = n.args[:-1]
+            if not _rewrite_cache_uses(Hc, lambda e: "param" if isinstance(e, ast.Name) and e.id == memo else None):
+                continue
+            if any(isinstance(n, ast.Name) and n.id == memo for n in ast.walk(Hc)):
+                continue
+            # parameter names of the helper become those of F
+            ren = dict(zip(hp[:-1], fp))
+            if not static_f:
+                ren[H.args.args[0].arg] = F.args.args[0].arg
+            for n in ast.walk(Hc):
+                if isinstance(n, ast.Name) and n.id in ren:
+                    n.id = ren[n.id]
+            F.body = [st for st in F.body if isinstance(st, ast.Expr) and isinstance(st.value, ast.Constant) and isinstance(st.value.value, str)][:1] + \
+                [st for st in Hc.body if not (isinstance(st, ast.Expr) and isinstance(st.value, ast.Constant) and isinstance(st.value.value, str))]
+            cdef.body.remove(H)
+            del methods[H.name]
+            _sink_trailing_return(F)
+            ast.fix_missing_locations(F)
+            done += 1
+    return done
+
+
+def _sink_trailing_return(fn):
+    """`if ..: T = A  elif ..: T = B  else: <stmts>` followed by `return T` as the last two statements of the function: every leaf that
+    ends in `T = X` returns X, every other leaf returns T (the single exit a memo store needed becomes a return per case again)"""
+    body = fn.body
+    if len(body) < 2 or not (isinstance(body[-1], ast.Return) and isinstance(body[-1].value, ast.Name) and isinstance(body[-2], ast.If)):
+        return False
+    T = body[-1].value.id
+
+    def sink(block):
+        if not block:
+            block.append(ast.Return(value=ast.Name(id=T, ctx=ast.Load())))
+            return
+        last = block[-1]
+        if isinstance(last, ast.Assign) and len(last.targets) == 1 and isinstance(last.targets[0], ast.Name) and last.targets[0].id == T:
+            block[-1] = ast.copy_location(ast.Return(value=last.value), last)
+        elif isinstance(last, ast.If):
+            sink(last.body)
+            sink(last.orelse)
+        elif not isinstance(last, (ast.Return, ast.Raise)):
+            block.append(ast.Return(value=ast.Name(id=T, ctx=ast.Load())))
+    iff = body[-2]
+    sink(iff.body)
+    sink(iff.orelse)
+    body.pop()
+    return True
 
 
 def _rewrite_cache_uses(fn, container):
